@@ -22,7 +22,7 @@ for e in entries:
             if f.startswith('zz_contracts'): shutil.copy('/verif/drafts/C01/pkg/utils/resources/'+f, ov+'/pkg/utils/resources/')
     if e.get('base'):
         shutil.copytree(D+'/'+e['base'], ov, dirs_exist_ok=True)
-    src=open((ov+'/' if e.get('base') else '/repo/')+e['file']).read()
+    src=open((ov+'/' if os.path.exists(ov+'/'+e['file']) else '/repo/')+e['file']).read()
     if e['old'] not in src:
         print('STALE', e['name']); bad+=1; continue
     dst=os.path.join(ov, e['file']); os.makedirs(os.path.dirname(dst), exist_ok=True)
